@@ -97,6 +97,11 @@ class _MathShim(object):
         if isinstance(x, S):
             return x.sqrt()
         import math
+        if sym.CTX is not None and isinstance(x, (int, float)):
+            import sympy as sp
+            r = sp.sqrt(w(x))
+            if not r.is_Rational:
+                return S(r)
         return math.sqrt(x)
 
     def log(self, x):
